@@ -126,7 +126,13 @@ def shard(ctx, k, payload):
 
     def body(data):
         p = data.draw(scenario.personas())
-        bias = data.draw(st.sampled_from(['none', 'owes', 'refund', 'big_deductions', 'low_income_nc', 'apply_refund', 'credits_over_tax', 'interest_refund', 'nc_refund_with_use_tax', 'nc_use_tax_credit', 'dependents_credits_over_tax']))
+        bias = data.draw(st.sampled_from(['none', 'owes', 'refund', 'big_deductions', 'low_income_nc', 'apply_refund', 'credits_over_tax', 'interest_refund', 'nc_refund_with_use_tax', 'nc_use_tax_credit', 'dependents_credits_over_tax', 'investor_199a', 'ira_lost_value']))
+        if bias == 'investor_199a':
+            # dividends far above wages, some of them section 199A dividends (Form 8995 with net capital gain above taxable income)
+            p.update(big_dividends=True, s199a=True, n_div=1, n_int=0, wage_level='low', n_w2=data.draw(st.sampled_from([0, 1])), deps=[], itemize=False)
+        if bias == 'ira_lost_value':
+            # Form 8606 for an IRA whose year-end value and distributions are below its basis
+            p.update(ira='8606', n_r=max(1, p['n_r']), ira_lost_value=True)
         if bias == 'dependents_credits_over_tax':
             # little tax, a foreign tax credit, and a dependent who gives the credit for other dependents / child tax credit
             p.update(n_w2=0, wage_level='low', n_int=3, n_div=0, n_r=0, huge_interest=True, foreign_tax=True, itemize=False,
@@ -211,7 +217,7 @@ def shard(ctx, k, payload):
 
 def run(ctx):
     quick = ctx.tier == 'quick'
-    n = 1200 if quick else 30000
+    n = 1500 if quick else 30000
     shards = 16
     hyp.pmap(ctx, shard, [(n // shards, ctx.seed * 1000 + k) for k in range(shards)])
 
